@@ -275,6 +275,7 @@ func (h *HttpServer) handleStreamInit(w http.ResponseWriter, r *http.Request) {
 	if info.HasHeader && streamResult.Header != nil {
 		initLogs := callCtx.drainLogs()
 		if err := h.server.writeStreamHeader(&buf, streamResult.Header, initLogs); err != nil {
+			handlerErr = err
 			h.writeHttpError(w, http.StatusInternalServerError, err, nil)
 			return
 		}
@@ -299,10 +300,15 @@ func (h *HttpServer) handleStreamInit(w http.ResponseWriter, r *http.Request) {
 			// Batch limit reached — append continuation token
 			token, tokenErr := h.packCursorToken(callID, state, auth)
 			callToken, callErr := h.packCallTokenFor(method, callID, outputSchema, auth, streamID)
-			if tokenErr != nil {
+			if tokenErr != nil || callErr != nil {
 				handlerErr = tokenErr
-			} else if callErr != nil {
-				handlerErr = callErr
+				if handlerErr == nil {
+					handlerErr = callErr
+				}
+				// Without a token the stream would simply end, and the client
+				// would take the batches written so far for the whole result.
+				// Say so in-band, like any other mid-stream failure.
+				h.logIPCWriteErr("error-batch", info.Name, writeErrorBatch(writer, outputSchema, handlerErr, h.server.serverID, "", h.server.debugErrors))
 			} else if werr := writeStateTokenBatch(writer, outputSchema, token, callToken); werr != nil {
 				h.logIPCWriteErr("state-token-batch", info.Name, werr)
 				handlerErr = werr
@@ -318,11 +324,13 @@ func (h *HttpServer) handleStreamInit(w http.ResponseWriter, r *http.Request) {
 		// Exchange init — return state token (carry schema for dynamic methods)
 		token, err := h.packCursorToken(callID, state, auth)
 		if err != nil {
+			handlerErr = err
 			h.writeHttpError(w, http.StatusInternalServerError, err, nil)
 			return
 		}
 		callToken, err := h.packCallTokenFor(method, callID, outputSchema, auth, streamID)
 		if err != nil {
+			handlerErr = err
 			h.writeHttpError(w, http.StatusInternalServerError, err, nil)
 			return
 		}
@@ -660,6 +668,10 @@ func (h *HttpServer) handleProducerContinuation(ctx context.Context, w http.Resp
 		token, tokenErr := h.packCursorToken(callID, state, auth)
 		if tokenErr != nil {
 			err = tokenErr
+			// Without a token the stream would simply end, and the client
+			// would take the batches written so far for the whole result.
+			// Say so in-band, like any other mid-stream failure.
+			h.logIPCWriteErr("error-batch", info.Name, writeErrorBatch(writer, schema, tokenErr, h.server.serverID, "", h.server.debugErrors))
 		} else if werr := writeStateTokenBatch(writer, schema, token, nil); werr != nil {
 			h.logIPCWriteErr("state-token-batch", info.Name, werr)
 			err = werr
